@@ -172,8 +172,25 @@ TREES = ['self', 'dict', 'list', 'object', 'dict2']     # dict2: two levels
 
 def gen_case(r):
   fam = ['functor', 'functor', 'dna', 'dna', 'hyper', 'wrapped', 'wrapped', 'flagcls', 'flagcls', 'flagcls',
-         'subroot', 'subroot', 'subroot'][r.below(13)]
+         'subroot', 'subroot', 'subroot', 'tuples', 'tuples', 'dna'][r.below(16)]
   spec = {'fam': fam, 'how': HOWS[r.below(4)]}
+  if fam == 'tuples':
+    # symbolic containers held inside (nested) tuples / plain lists / plain dicts of a symbolic root
+    def shape(depth):
+      k = r.below(10)
+      if depth >= 3 or k < 3:
+        return ['sym', ('dict', 'list', 'obj')[r.below(3)], r.randint(1, 9)]
+      if k < 4:
+        return ['int', r.randint(1, 9)]
+      if k < 8:
+        return ['tup', [shape(depth + 1) for _ in range(r.randint(1, 3))]]
+      if k < 9:
+        return ['plist', [shape(depth + 1) for _ in range(r.randint(1, 2))]]
+      return ['pdict', [shape(depth + 1) for _ in range(r.randint(1, 2))]]
+    spec['root'] = ('dict', 'list', 'obj')[r.below(3)]
+    spec['shape'] = ['tup', [shape(1) for _ in range(r.randint(1, 3))]]
+    spec['muts'] = [['c' if r.chance(0.5) else 'o', r.below(8), r.randint(10, 19)] for _ in range(r.randint(1, 3))]
+    return {'ops': [], 'lib': spec}
   if fam == 'flagcls':
     spec['cls'] = r.below(4)
     spec['sealed'] = (None, False, True)[r.below(3)]          # constructor argument
@@ -222,6 +239,15 @@ def gen_case(r):
       muts.append(['c' if r.chance(0.6) else 'o', ('value', 'meta', 'udata')[r.below(3)], r.below(4),
                    ('name', 'id', 'named')[r.below(3)]])
     spec['muts'] = muts
+    # metadata of the root before the clone (cloneable or not) and later changes of the cloneable status
+    # (metadata that is NOT cloneable is deliberately dropped by a clone, so it is only set after the clone:
+    # 'nmeta' on one copy, then the same key marked cloneable on the other copy)
+    spec['premeta'] = [[('score', 'note', 'tag')[r.below(3)], True] for _ in range(r.below(3))]
+    if r.chance(0.6):
+      who = 'c' if r.chance(0.5) else 'o'
+      k = ('score', 'note', 'tag', 'extra')[r.below(4)]
+      spec['muts'].append([who, 'nmeta', k, 'root'])
+      spec['muts'].append(['o' if who == 'c' else 'c', 'cmeta', k, 'root'])
   elif fam == 'hyper':
     spec['kind'] = ('oneof', 'manyof', 'floatv', 'nested')[r.below(4)]
     spec['pre'] = [p for p in ('dna_spec', 'decode', 'encode') if r.chance(0.5)]
@@ -440,8 +466,14 @@ def _dna_nodes(d):
 
 def _obs_dna(d):
   nodes = _dna_nodes(d)
-  return {'json': d.to_json_str(), 'meta': [repr(sorted(n.metadata.items(), key=repr)) for n in nodes],
-          'udata': [repr(sorted(n.userdata.items(), key=repr)) for n in nodes], 'n': len(nodes)}
+  out = {'json': d.to_json_str(), 'meta': [repr(sorted(n.metadata.items(), key=repr)) for n in nodes],
+         'udata': [repr(sorted(n.userdata.items(), key=repr)) for n in nodes], 'n': len(nodes)}
+  try:
+    # what a fresh clone inherits (only the metadata marked cloneable) is part of the observable state
+    out['cmeta'] = [repr(sorted(n.metadata.items(), key=repr)) for n in _dna_nodes(d.clone(deep=True))]
+  except Exception as e:   # pylint: disable=broad-except
+    out['cmeta'] = 'raises ' + type(e).__name__
+  return out
 
 
 def _dna_root(pg, node):
@@ -510,6 +542,8 @@ def _run_dna(lb, s):
         _ = d.get(names[-1])
     except Exception:   # pylint: disable=broad-except
       pass
+  for k, cl in s.get('premeta', []):
+    d.set_metadata(k, 'v-' + k, cloneable=cl)
   tree, get = _in_tree(lb, d, s['tree'])
   before = _obs_dna(d)
   ctree = _clone(tree, s['how'])
@@ -531,6 +565,18 @@ def _run_dna(lb, s):
   for i, m in enumerate(s['muts']):
     who, other = m[0], ('c' if m[0] == 'o' else 'o')
     x = copies[who]
+    if m[1] in ('cmeta', 'nmeta'):
+      try:
+        x.set_metadata(m[2], 'w-%d' % i, cloneable=(m[1] == 'cmeta'))
+      except Exception:   # pylint: disable=broad-except
+        pass
+      now = _obs_dna(copies[other])
+      if now != snap[other]:
+        ks = [k for k in now if now[k] != snap[other].get(k)]
+        return ('interference', 'mutation %d (set_metadata(%r, cloneable=%s) on the %s) changed %s of the %s' % (
+            i, m[2], m[1] == 'cmeta', 'clone' if who == 'c' else 'original', ks, 'clone' if other == 'c' else 'original'))
+      snap[who] = _obs_dna(copies[who])
+      continue
     handed = _handed_out(x)
     if not handed:
       continue
@@ -854,12 +900,107 @@ def _run_subroot(lb, s):
   return None
 
 
+
+# ------------------------------------------------------------------------------------------------
+# symbolic containers inside (nested) tuples / plain lists / plain dicts
+# ------------------------------------------------------------------------------------------------
+
+def _build_shape(lb, sh):
+  pg = lb['pg']
+  k = sh[0]
+  if k == 'int':
+    return sh[1]
+  if k == 'sym':
+    if sh[1] == 'dict':
+      return pg.Dict(x=sh[2], y=pg.List([sh[2]]))
+    if sh[1] == 'list':
+      return pg.List([sh[2], pg.Dict(x=sh[2])])
+    return lb['pg'].Dict(o=pg.Dict(x=sh[2]))
+  if k == 'tup':
+    return tuple(_build_shape(lb, c) for c in sh[1])
+  if k == 'plist':
+    return [_build_shape(lb, c) for c in sh[1]]
+  return {'k%d' % i: _build_shape(lb, c) for i, c in enumerate(sh[1])}
+
+
+def _deep_nodes(pg, v, path, out):
+  """every symbolic node reachable from v, also through tuples, plain lists and plain dicts."""
+  if isinstance(v, pg.Symbolic):
+    out.append((path, v))
+    for k, c in _children(pg, v):
+      _deep_nodes(pg, c, path + (k,), out)
+  elif isinstance(v, (tuple, list)):
+    for i, c in enumerate(v):
+      _deep_nodes(pg, c, path + ('#%d' % i,), out)
+  elif isinstance(v, dict):
+    for k, c in v.items():
+      _deep_nodes(pg, c, path + ('@%s' % k,), out)
+  return out
+
+
+def _deep_obs(pg, v):
+  if isinstance(v, pg.Symbolic):
+    return [type(v).__name__, [[str(k), _deep_obs(pg, c)] for k, c in _children(pg, v)]]
+  if isinstance(v, tuple):
+    return ['tup', [_deep_obs(pg, c) for c in v]]
+  if isinstance(v, list):
+    return ['plist', [_deep_obs(pg, c) for c in v]]
+  if isinstance(v, dict):
+    return ['pdict', [[str(k), _deep_obs(pg, c)] for k, c in v.items()]]
+  return repr(v)
+
+
+def _run_tuples(lb, s):
+  pg = lb['pg']
+  payload = _build_shape(lb, s['shape'])
+  if s['root'] == 'dict':
+    root = pg.Dict(t=payload, n=1)
+  elif s['root'] == 'list':
+    root = pg.List([0, payload])
+  else:
+    root = pg.Dict(inner=pg.Dict(t=payload))
+  deep = s['how'] in ('deep', 'deepcopy')
+  before = _deep_obs(pg, root)
+  c = _clone(root, s['how'])
+  if _deep_obs(pg, root) != before:
+    return ('original-changed', 'cloning changed the original')
+  if _deep_obs(pg, c) != before:
+    return ('not-equal', 'the clone differs from the original: %s vs %s' % (_deep_obs(pg, c), before))
+  if not pg.eq(root, c):
+    return ('not-equal', 'pg.eq(original, clone) is False')
+  if not deep:
+    return None
+  a, b = _deep_nodes(pg, root, (), []), _deep_nodes(pg, c, (), [])
+  ids = {id(n): p for p, n in a}
+  for p, n in b:
+    if id(n) in ids:
+      return ('shared-node', 'the symbolic node at %s of the deep clone IS the node at %s of the original (held through a tuple / plain container)'
+              % ('/'.join(map(str, p)), '/'.join(map(str, ids[id(n)]))))
+  copies = {'o': (root, a), 'c': (c, b)}
+  for i, m in enumerate(s['muts']):
+    who, other = m[0], ('c' if m[0] == 'o' else 'o')
+    nodes = [n for _, n in copies[who][1] if isinstance(n, (pg.Dict, pg.List))]
+    n = nodes[m[1] % len(nodes)]
+    snap = _deep_obs(pg, copies[other][0])
+    try:
+      if isinstance(n, pg.Dict):
+        n['m%d' % i] = m[2]
+      else:
+        n.append(m[2])
+    except Exception:   # pylint: disable=broad-except
+      pass
+    if _deep_obs(pg, copies[other][0]) != snap:
+      return ('interference', 'mutation %d of the %s is visible in the %s' % (
+          i, 'clone' if who == 'c' else 'original', 'clone' if other == 'c' else 'original'))
+  return None
+
+
 def run_case(case):
   """same result shape as symcommon.run_history (no model records: nothing is compared)."""
   lb = lib()
   s = case['lib']
   fn = {'functor': _run_functor, 'dna': _run_dna, 'hyper': _run_hyper, 'wrapped': _run_wrapped,
-        'flagcls': _run_flagcls, 'subroot': _run_subroot}[s['fam']]
+        'flagcls': _run_flagcls, 'subroot': _run_subroot, 'tuples': _run_tuples}[s['fam']]
   bad = fn(lb, s)
   fail = None
   if bad:
